@@ -382,6 +382,20 @@ pub fn push_oracle(t: &Tables, c: &PushCase, probe: &mut Probe) -> Result<(), Fa
         "push/depends-on-input-declaration-order",
         "declaring the inputs in order {order:?} instead of 0..{n} changed the outcome:\n{st1:?}\n{st3:?}"
     );
+    // What else the process has done with variable names is no input either: in one case out of eight a
+    // thousand unrelated names are created between building the program and declaring its inputs.
+    if n >= 1 && c.order_keys.first().is_some_and(|k| k % 8 == 0) {
+        crate::model::real::OTHER_NAMES.with(|o| o.set(1100));
+        let r4 = run(None);
+        crate::model::real::OTHER_NAMES.with(|o| o.set(0));
+        let (ok4, s4, st4) = r4?;
+        ensure!(
+            ok1 == ok4 && same(&s1, &s4),
+            "push/depends-on-unrelated-variable-names",
+            "creating 1100 unrelated variable names between building the program and declaring its inputs changed the outcome:\n{st1:?}\n{st4:?}"
+        );
+        probe.label("unrelated variable names created in between");
+    }
     let uses_input = format!("{:?}", c.vm.exec).contains("Input");
     probe.nontrivial = n >= 1 && uses_input;
     if n >= 2 && order != (0..n).collect::<Vec<_>>() {
@@ -395,7 +409,7 @@ pub fn push_strategy() -> BoxedStrategy<PushCase> {
 }
 
 pub fn run(ctx: &mut Ctx) {
-    ctx.rule = "operators: call histories [(operator, seed)...] over a registry of selectors (incl. weighted / dynamic / erased trees), WithRate, WithOneOverLength, Umad (3 constructors, Vector and Plushy), TwoPointXo / UniformXo (Vec, Bitstring), collection generators, Bitstring::random*, all choice flavours, gene generators, individual generators and the usual select-recombine-mutate-score pipeline; each call runs twice from clones of a word-counting generator (equal results, equal word counts, equal next word), repeats within a history must agree, and a third run happens on another thread (fresh operator value) after that thread's rand::rng() was used. push: generated programs run twice and once more with the inputs declared in a permuted order. non-trivial = the operation consumed >= 1 random word / the program mentions >= 1 input; distinct by JSON encoding".into();
+    ctx.rule = "operators: call histories [(operator, seed)...] over a registry of selectors (incl. weighted / dynamic / erased trees), WithRate, WithOneOverLength, Umad (3 constructors, Vector and Plushy), TwoPointXo / UniformXo (Vec, Bitstring), collection generators, Bitstring::random*, all choice flavours, gene generators, individual generators and the usual select-recombine-mutate-score pipeline; each call runs twice from clones of a word-counting generator (equal results, equal word counts, equal next word), repeats within a history must agree, and a third run happens on another thread (fresh operator value) after that thread's rand::rng() was used. push: generated programs run twice, once more with the inputs declared in a permuted order, and in an eighth of the cases once more with 1100 unrelated variable names created between building the program and declaring its inputs. non-trivial = the operation consumed >= 1 random word / the program mentions >= 1 input; distinct by JSON encoding".into();
     ctx.assumptions.push("'nothing else influences the outcome' can only be refuted by sampling".into());
     let (n, np) = ctx.tier.pick((150_000u32, 60_000u32), (3_000_000, 1_000_000));
     ctx.run_prop("operator_histories", n, strategy, oracle);
